@@ -1,0 +1,31 @@
+//! Verification hook, compiled only with `--cfg paseto_rs_verif` (never in normal builds).
+//!
+//! PASETO v3 / PASERK k1, k3 derive the AES-CTR counter block from a KDF, so a counter block that is about
+//! to wrap cannot be chosen through the public API. This hook lets a verification harness substitute the
+//! derived counter block, so that the cipher instantiation on the real code path can be compared with the
+//! specification for such blocks.
+
+use core::sync::atomic::{AtomicBool, AtomicU8, Ordering};
+
+static ACTIVE: AtomicBool = AtomicBool::new(false);
+static IV: [AtomicU8; 16] = [const { AtomicU8::new(0) }; 16];
+
+/// Substitute every derived counter block by `iv` until called again with `None`.
+pub fn set_iv_override(iv: Option<[u8; 16]>) {
+    ACTIVE.store(false, Ordering::SeqCst);
+    if let Some(iv) = iv {
+        for (slot, b) in IV.iter().zip(iv) {
+            slot.store(b, Ordering::SeqCst);
+        }
+        ACTIVE.store(true, Ordering::SeqCst);
+    }
+}
+
+/// The counter block to use: the derived one, unless an override is active.
+pub fn iv(derived: [u8; 16]) -> [u8; 16] {
+    if ACTIVE.load(Ordering::SeqCst) {
+        core::array::from_fn(|i| IV[i].load(Ordering::SeqCst))
+    } else {
+        derived
+    }
+}
